@@ -184,6 +184,34 @@ func runC15(c *Ctx) {
 			c.sample(map[string]interface{}{"token_length": len(tok), "creds_length": len(creds)})
 		}
 	}
+	// bare tokens full of dashes ('-' is a base64url character: runs of three and more can stand anywhere in a token,
+	// in a payload segment wherever the claims hold the right bytes): a bare token parses to itself
+	{
+		ukp := kr.by["account"]
+		uc := jwt.NewUserClaims(kr.by["user"].pub)
+		// U+FF80 after an 's' on a 3-byte boundary encodes to "c---"; padding moves the boundary
+		var dashy []string
+		for pad := 0; pad < 3; pad++ {
+			uc.Name = strings.Repeat("p", pad) + "s\uff80s\uff80 and s\uff80"
+			if t, err := uc.Encode(ukp.kp); err == nil {
+				dashy = append(dashy, t)
+			}
+		}
+		for _, tok := range valid {
+			ch := strings.Split(tok, ".")
+			dashy = append(dashy, ch[0]+"."+ch[1]+"."+"------"+ch[2][6:], ch[0]+"."+ch[1][:8]+"---"+ch[1][11:20]+"---"+ch[1][23:]+"."+ch[2],
+				"---"+tok[3:], tok[:len(tok)-3]+"---", ch[0]+"."+ch[1]+"."+ch[2][:10]+"----------"+ch[2][20:])
+		}
+		dashy = append(dashy, "aaa------bbb.ccc.ddd", "a---b---c.d.e", "------", "---.---.---", "a.b.c---", "x-----y")
+		for _, tok := range dashy {
+			c.sum.Evaluations++
+			c.sum.ImplChecks++
+			if got := parseJWTCase(tok); got != tok {
+				c.violation("C15: a bare token does not parse to itself", map[string]interface{}{"token": tok, "parsed": got, "dash_runs": strings.Count(tok, "---")})
+			}
+			c.count("bare_token_with_dash_runs")
+		}
+	}
 	// decoration of every kind
 	for kind, tok := range valid {
 		d, err := jwt.DecorateJWT(tok)
